@@ -284,8 +284,8 @@ func (t *SessionTeardown) cleanup(session *Session, cause TerminateCause) error 
 		}
 	}
 
-	// 2. Send RADIUS Accounting-Stop
-	if t.radiusClient != nil && session.Authenticated {
+	// 2. Send RADIUS Accounting-Stop, for a session that has been started only
+	if t.radiusClient != nil && session.AcctStarted {
 		t.sendAccountingStop(ctx, session, cause, stats)
 	}
 
